@@ -296,6 +296,8 @@ def module_facts(rep, rule, prog, cg):
             while x[0] in ('ref', 'deref'):
                 x = x[1]
             src = x[4] if x[0] == 'cast' and x[2] == 'u64' and len(x) > 4 else None
+            if x[0] == 'call' and re.search(r'From<u32>>::from$|<u32 as .*Into<u64>>::into$', x[1]):
+                src = 'u32'      # u64::from(z as u32) / (z as u32).into(): lossless widening of an unsigned value
             if src == 'u32':
                 rep.ok(rule, key, 'widened to u64 from u32 (zero-extended)', module_fns(prog, cg, s)['encode'].loc())
             else:
